@@ -159,6 +159,13 @@ C01_BOUNDS = {
 }
 
 
+def c01_bounds(tier: str, lean: bool = False):
+    b = C01_BOUNDS[tier]
+    if lean and tier == "quick":
+        b = dict(b, top=[(n, (("",) if n >= 3 else m), (("none",) if n >= 3 else t)) for n, m, t in b["top"]], ctx=[(h, ("none",)) for h, t in b["ctx"]])
+    return b
+
+
 def length_for(alphabet: str, max_inputs: int) -> int:
     L, total = 0, 1
     while total + len(alphabet) ** (L + 1) <= max_inputs:
@@ -167,8 +174,11 @@ def length_for(alphabet: str, max_inputs: int) -> int:
     return L
 
 
-def c01_specs(tier: str, kmode: str = "zero", terminals=T_FULL, soi_free: bool = False, extra_sigma: str = "", max_inputs: int | None = None, extra_trivia=(), sigma_core: str | None = None):
-    b = C01_BOUNDS[tier]
+def c01_specs(tier: str, kmode: str = "zero", terminals=T_FULL, soi_free: bool = False, extra_sigma: str = "", max_inputs: int | None = None, extra_trivia=(), sigma_core: str | None = None,
+              lean: bool = False):
+    """lean (quick tier of the checks that multiply the work by every start position): the n<=3 row with normal rules and no trivia only,
+    contexts without trivia only."""
+    b = c01_bounds(tier, lean)
     if extra_trivia:
         n0, mods0, trivs0 = b["top"][0]
         b = dict(b, top=[(n0, mods0, tuple(trivs0) + tuple(t for t in extra_trivia if t not in trivs0))] + list(b["top"][1:]))
